@@ -263,7 +263,9 @@ class PolicyOracle:
                 # (not the retransmission of a request to another peer that falls into the same iteration)
                 before = {x['data'] for x in self.wire.by_sender.get(N, [])[:cur['sent0']]}
                 wrong = [x for x in reqs if x['dst'] != str(conn['peer_addr']) and x['data'] not in before]
-                if wrong and len(cur['acq']) == 1 and not cur['others_readable']:
+                # (... nor what a timer of another IKE_SA - DPD, rekey - sends in the sweep of the same iteration: thorough soak, seed 505009684)
+                wrong = [x for x in wrong if x['h']['exch'] != 37]
+                if wrong and len(cur['acq']) == 1 and not cur['others_readable'] and not cur['timer']:
                     return self.viol('acquire_negotiated_with_wrong_peer', {}, f'{N}: ACQUIRE for policy index {idx} (peer {conn["peer_addr"]}) '
                                                                               f'made it send a request to {wrong[0]["dst"]}')
                 # (another IKE_SA with that peer that is established or being established by us and has a request outstanding may legitimately
